@@ -798,12 +798,20 @@ func (c13) Run(c *Case, st *Stats) []Violation {
 				if w == "-0.00" {
 					w = "0.00"
 				}
+				if math.IsNaN(o) || math.IsInf(o, 0) {
+					// a purchase at a price of 0 makes the outcome infinite or undefined; which of the
+					// two a given arithmetic path prints is not something to hold anyone to
+					w = "non-finite"
+				}
 				want = append(want, strategies[i].Name()+" "+w)
 			}
 			for i, r := range rows {
 				g := fmt.Sprintf("%.2f", r.Outcome)
 				if g == "-0.00" {
 					g = "0.00"
+				}
+				if math.IsNaN(r.Outcome) || math.IsInf(r.Outcome, 0) {
+					g = "non-finite"
 				}
 				gotRows = append(gotRows, r.Key+" "+g)
 				if i > 0 && r.Outcome > rows[i-1].Outcome {
